@@ -198,11 +198,114 @@ def run(m, rep, tier):
         if f is not None:
             nw.check_entry(f, l7)
 
+    # ---- L10: the sweep index only moves past a clean bucket ---------------------------------
+    # everything below rh.clean is taken to be clean by the completion test; a bucket the index steps over without it
+    # being cleaned (stamped) or known to carry the table's stamp keeps a stale stamp, and nodes inserted into it later
+    # are skipped by the next rehash
+    l10 = rep.rule('L10', 'the sweep index is advanced only past a bucket that was just cleaned or is known to carry the table\'s clean stamp', floor=1)
+    bmod = m.focus('hash', set(roles.names('checked')) | set(roles.names('cleaner')))
+    hosts = [g for g in bmod.defined() if g.name != 'cstl_hash_resize' and any(_is_sweep_step(g, s_) for s_ in g.all_insts())]
+    if not hosts:
+        l10.undecided('sweep', 'no function advancing the sweep index found')
+    for g in hosts:
+        check_sweep_steps(m, g, set(roles.names('cleaner')), l10)
+
+    # ---- L11: keys are never narrowed -------------------------------------------------------
+    l11 = rep.rule('L11', 'a key (size_t) is never narrowed on its way to the lookup, the comparison or the node', floor=3)
+    for g in mod.defined():
+        keys = set()
+        for k, a_ in enumerate(g.args):
+            if (a_.get('name') or '') in ('k', 'key') and a_.get('ty') == 'i64':
+                keys.add('$%d' % k)
+        for i_ in g.all_insts():
+            if i_.op == 'load' and resolve_addr(g, i_.o[0]).fsteps[-1:] == (('cstl_hash_node', 'key'),):
+                keys.add(i_.ref)
+        if not keys:
+            continue
+        tr = [i_ for i_ in g.all_insts() if i_.op == 'trunc' and isinstance(i_.o[0], str) and strip_bitcasts(g, i_.o[0]) in keys]
+        if tr:
+            l11.violation(g.name, 'the key is truncated to %s bits at %s: keys that differ only above that width hash to, and compare equal with, '
+                          'the wrong elements' % (tr[0].x.get('bits'), tr[0].loc()), floc(m, g), {})
+        else:
+            l11.ok(g.name, '%d key value(s), none narrowed' % len(keys), floc(m, g))
+
     # ---- L9: swap completeness ------------------------------------------------------------
     from .util import check_swap_complete
     _sw = rep.rule('L9', 'swap exchanges every member of the two tables (array, geometry, pending geometry, clean bit, count, offset)', floor=1)
     for _n in ('cstl_hash_swap',):
         check_swap_complete(m, _n, _sw)
+
+    # ---- L12: the NDEBUG build does what the assertion build does ---------------------------------
+    from .util import check_assert_effects
+    _ae = rep.rule('L12', 'every store / effectful call made with assertions enabled is also made by the NDEBUG build (no work inside assert())', floor=1)
+    check_assert_effects(m, _ae, ('hash.c', 'hash.h'))
+
+
+def _is_sweep_step(f, s):
+    if s.op != 'store' or fld(f, s) != 'bucket.rh.clean':
+        return False
+    base, step = unit_step(f, s.o[0])
+    return step == 1 and is_load_of(f, base, 'bucket.rh.clean')
+
+
+def check_sweep_steps(m, f, cleaners, rule):
+    steps = [s for s in f.all_insts() if _is_sweep_step(f, s)]
+    subs = {g.ref: idx for g, idx in at_subscripts(f)}
+    bad = set()
+
+    def swept_bucket(ref):
+        # &bucket.at[load rh.clean]
+        r = strip_bitcasts(f, ref) if isinstance(ref, str) else ref
+        return r in subs and is_load_of(f, subs[r], 'bucket.rh.clean')
+
+    def core(v):
+        # a _Bool member is loaded as i8, narrowed to i1 and widened again for the comparison
+        i = f.get(v) if isinstance(v, str) else None
+        while i is not None and i.op in ('zext', 'trunc', 'bitcast') and isinstance(i.o[0], str):
+            v = i.o[0]
+            i = f.get(v)
+        return v
+
+    def stamp_known(ps):
+        for (op, x, y) in ps.known:
+            if op != 'eq':
+                continue
+            for a, b in ((core(x), core(y)), (core(y), core(x))):
+                ai = f.get(a) if isinstance(a, str) else None
+                if ai is None or ai.op != 'load' or not is_load_of(f, b, 'bucket.cst'):
+                    continue
+                aa = resolve_addr(f, ai.o[0])
+                if aa.fsteps[-1:] != (('cstl_hash_bucket', 'cst'),):
+                    continue
+                g = f.get(ai.o[0]) if isinstance(ai.o[0], str) else None
+                while g is not None and g.op in ('getelementptr', 'bitcast'):
+                    if swept_bucket(g.ref):
+                        return True
+                    g = f.get(g.o[0]) if isinstance(g.o[0], str) else None
+        return False
+
+    def transfer(ins, st, ps):
+        if ins.op == 'call':
+            if ins.x.get('noreturn'):
+                return None
+            if ins.callee in cleaners and any(isinstance(o, str) and swept_bucket(o) for o in ins.o):
+                return 'clean'
+        if ins in steps:
+            if st != 'clean' and not stamp_known(ps):
+                bad.add('the sweep index is advanced at %s past a bucket that was neither cleaned nor found to carry the table\'s clean stamp '
+                        '(e.g. an empty one): it keeps its stale stamp, the next resize takes it for already clean, and nodes inserted into it '
+                        'in between are never relocated' % ins.loc())
+            return 'none'
+        return st
+    try:
+        res = typestate.run(f, 'none', transfer, limit=200000)
+    except typestate.Limit as e:
+        rule.undecided(f.name + ':sweep-step', str(e), floc(m, f))
+        return
+    if bad:
+        rule.violation(f.name + ':sweep-step', '; '.join(sorted(bad)[:2]), floc(m, f), {})
+    else:
+        rule.ok(f.name + ':sweep-step', '%d step(s), each after cleaning the bucket or seeing its stamp equal the table\'s' % len(steps), floc(m, f))
 
 
 def check_capacity_request(m, f, c, setter, rule):
